@@ -180,9 +180,7 @@ static Case gen_C11(const GenCtx &ctx) {
     if (o.gen && o.weight > 0 && std::string(o.prop) != "C19") w.push_back({o.weight * (o.views_ok ? 2 : 1), &o});
   const Op *o = g::wpick(w);
   o->gen(ctx, c, o->views_ok ? 60 : 0);
-  if (c.s("op").find("russian") != std::string::npos)
-    for (auto &kv : c.kv)
-      if (kv.first.size() > 3 && kv.first.compare(kv.first.size() - 3, 3, ".lw") == 0) kv.second = std::to_string(atoi(kv.second.c_str()) & ~1);
+  even_offsets_for_building_blocks(c);
   return c;
 }
 
